@@ -429,6 +429,60 @@ def rule_extend_whole(ctx, r):
         r.ok("Library::extend|appends other.elements wholesale", where)
 
 
+def rule_grow(ctx, rep, rid="R-C03-grow"):
+    """While the command line assembles the set of files to check, files only come in.  A project method that clears or replaces
+    the source table (`initialize` starts with `sources.clear()`) called in that loop forgets the files named before it - and with
+    them their errors."""
+    r = rep.rule(rid, "cli::create_project only adds sources: no method it calls on the project clears, removes from or replaces "
+                      "FileBackedProject.sources", floor=1, floor_what="project methods called while assembling the file set")
+    cb = ctx.prog.get("ironplcc::cli::create_project")
+    if not cb:
+        rep.error(rid, "cli::create_project not found")
+        return
+    b = cb[0]
+    PROJ = "ironplcc::project::FileBackedProject"
+
+    def shrinks(m, depth=0, seen=None):
+        seen = seen or set()
+        if m.id in seen or depth > 3:
+            return None
+        seen.add(m.id)
+        for i, j, st in m.all_stmts():
+            if st[0] == "=" and st[1][1]:
+                fl = [x for x in st[1][1] if isinstance(x, list) and x[0] == "f"]
+                if fl and fl[-1][3] == PROJ and fl[-1][2] == "sources" and st[1][1][-1] == fl[-1]:
+                    return "assigns self.sources (%s:%d)" % (m.f["file"], st[3][0])
+        for c in m.calls():
+            nm = (c.callee or c.u or "").split("::")[-1]
+            if nm in ("clear", "remove", "retain", "drain", "take", "split_off", "pop_first", "pop_last", "remove_entry", "truncate") and c.args:
+                p = op_place(c.args[0])
+                rt = m.root(p) if p else None
+                fl = [x for x in (rt[1] if rt else []) if isinstance(x, list) and x[0] == "f"]
+                if fl and fl[-1][3] == PROJ and fl[-1][2] == "sources":
+                    return "%s() on self.sources (%s:%d)" % (nm, m.f["file"], c.loc[0])
+            for t in (ctx.prog.get(c.callee) if c.callee else []):
+                if PROJ in norm(t.id):
+                    why = shrinks(t, depth + 1, seen)
+                    if why:
+                        return why
+        return None
+    n = 0
+    bodies = [b] + [cb_ for cb_ in ctx.prog.bodies.values() if cb_.f["dk"] == "Closure" and cb_.f.get("parent") == b.id]
+    for bd in bodies:
+        for c in sorted(bd.calls(), key=lambda c: (c.loc[0], c.loc[1])):
+            tg = [t for t in (ctx.prog.get(c.callee) if c.callee else []) if PROJ in norm(t.id)]
+            if c.rk in ("virtual", "unresolved"):
+                tg += [t for t in ctx.prog.impls.get(c.u, []) if PROJ in norm(t.id)]
+            for t in tg:
+                n += 1
+                why = shrinks(t)
+                inst = "create_project|calls %s" % norm(t.id).split("::")[-1]
+                if why:
+                    r.finding(inst + "|shrinks-sources", loc_str(bd.f, c.loc), "%s %s: files named by earlier arguments are forgotten, their errors with them" % (norm(t.id).split("::")[-1], why))
+                else:
+                    r.ok(inst, loc_str(bd.f, c.loc))
+
+
 def rule_first(ctx, rep):
     r = rep.rule("R-C03-first", "parse_program returns Err whenever the tokenizer reported anything (the is_empty test of the tokenizer's diagnostics "
                                 "dominates the parse)", floor=1)
@@ -467,6 +521,7 @@ def run(ctx, rep):
     rule_allsources(ctx, rep)
     from rules import c03_allwalks
     c03_allwalks.run(ctx, rep)
+    rule_grow(ctx, rep)
     # a faulty file must not be replaced in the file table by a different file that merely compares equal
     from rules.c06 import rule_types
     rule_types(ctx, rep, rid="R-C03-fileid")
